@@ -847,10 +847,17 @@ class RTDCWriter:
             # store ufunc data for mean (weighted with size)
             mean_a = dset.attrs.get("mean", None)
             if mean_a is not None:
-                num_a = offset
-                mean_b = np.nanmean(data)
-                num_b = data.size
-                mean = (mean_a * num_a + mean_b * num_b) / (num_a + num_b)
+                # The mean ignores nan values, so the weights must be the
+                # numbers of valid (non-nan) values, not the sizes.
+                num_a = np.sum(~np.isnan(dset[:offset]))
+                num_b = np.sum(~np.isnan(data))
+                if num_b == 0:
+                    mean = mean_a
+                elif num_a == 0:
+                    mean = np.nanmean(data)
+                else:
+                    mean_b = np.nanmean(data)
+                    mean = (mean_a * num_a + mean_b * num_b) / (num_a + num_b)
             else:
                 mean = np.nanmean(dset)
             dset.attrs["mean"] = mean
